@@ -402,9 +402,11 @@ def main(argv):
         pick += [j for j in plain if j[0] == "transform" and j[2].get("color_format") in ("picosvg", "untouchedsvg") and j not in pick]
         reruns = [j for j in jobs if len(j) > 6]
         cffs = [j for j in jobs if j[0] == "keep_glyph_names" and "output_file" in j[2]]
+        # names switched off in both CFF2 flavours and in CFF first (that is where post has to change), then the rest
+        cffs.sort(key=lambda j: (not (j[1] == "file" and j[3] is False), not j[2]["color_format"].startswith("cff2")))
         vfs = [j for j in jobs if j[2].get("_two_masters")]
         vfs = [j for j in jobs if j[2].get("_two_masters") and j not in pick]
-        pick += reruns[:3] + cffs[:2] + [j for j in vfs if j[0] == "keep_glyph_names"][:2] + [j for j in vfs if j[0] != "keep_glyph_names"][:1] + [j for j in vfs if j[0] == "keep_glyph_names"][:2] + [j for j in vfs if j[0] != "keep_glyph_names"][:1]
+        pick += reruns[:3] + cffs[:3] + [j for j in vfs if j[0] == "keep_glyph_names"][:2] + [j for j in vfs if j[0] != "keep_glyph_names"][:1] + [j for j in vfs if j[0] == "keep_glyph_names"][:2] + [j for j in vfs if j[0] != "keep_glyph_names"][:1]
         jobs = [j for n_, j in enumerate(pick) if j not in pick[:n_]]
     with ThreadPoolExecutor(max_workers=12) as ex:
         results = list(ex.map(run_job, jobs))
